@@ -49,6 +49,21 @@ CLAIMED = {
               'wrong-shape streams.'),
         note=COMMON_NOTE + 'Totality of the model is only as complete as the placement of partial operations in it; the ports check that placement against the code.',
         design='§6 C03'),
+    'C04': dict(
+        technique='Lean 4 proof (entry-point theorems; kernel-evaluated acceptance on the extracted meta-schema) + differential correspondence of the schema-submission model through all six entry points + corruption oracle',
+        text=('Acceptance is modelled as: expand, then run the Lean validation model on the schema as a document under the rule '
+              'constraint schemas extracted from the live class on this run, with the SchemaValidator callbacks (bulk_schema, schema, '
+              'items, type, dependencies, logical) calling the model again. Proved: C04_rejection_keeps_state (a rejected submission '
+              'leaves schema and allow_unknown untouched, at every entry point), C04_same_check (constructor/setter/per-call, item '
+              'assignment, update and the allow_unknown setter all decide by the same predicate on the part they submit), '
+              'C04_exposes_expanded, C04_meta_tables, C04_callbacks (kernel-evaluated: unknown rule, unknown type, wrongly typed '
+              'constraint, normalization rule in an *of definition, dangling reference and non-rule-set *of member are rejected at '
+              'depth 3; the intact schema is accepted). Partial: the general per-rule characterisation of "constraint satisfies the '
+              'declared constraint schema" is not a theorem yet; it is decided by the accept/entries ports on generated schemas and '
+              'single-point corruptions at every rule-set position, through every entry point, with the cache cleared. '
+              'The port found defect F29 (dangling reference accepted below a list schema), repaired by a fix: commit.'),
+        note=COMMON_NOTE + 'The acceptance model is only as good as the Lean validation model it reuses; sets as constraints are outside the value universe.',
+        design='§6 C04'),
     'C06': dict(
         technique='Lean 4 proof (return conventions and decomposition on the API state machine) + correspondence of the state machine + oracle of the API relations',
         text=('On the Lean state machine of one validator instance (Model/Api.lean): C06_verdict (validate returns True iff no error is '
